@@ -383,7 +383,7 @@ mutual
               expect (.lit ";")
               pure (.func tmpl (toRet r) name args)
             else
-              if tmpl.isSome then failParse
+              if tmpl.isSome || name == "operator" then failParse    -- `Variable`: the name is not `operator`
               else
                 let d ← optDefault
                 expect (.lit ";")
@@ -412,7 +412,7 @@ def pmodule : Nat → P Module
 /-- the model of `Module.parseString` -/
 def parseModule (text : String) : Except Err Module :=
   let s := text.toList
-  match (pmodule (s.length + 2)).run s with
+  match (pmodule (4 * s.length + 2)).run s with    -- fuel: never exhausted on a well-formed text (C01_parseModule_roundtrip)
   | .ok (m, _) => .ok m
   | .error e => .error e
 
